@@ -46,7 +46,7 @@ package epochkghandler
 //@   invariant@2 forall j :: 0 <= j && j < len(keys) ==> keys[j] != nil
 //@   invariant@2 len(keys) <= rangeindex + 1
 //@ func (*DecryptionKeyShareHandler).aggregateDecryptionKeySharesFromDB
-//@   requires handler != nil && wfResult(pureDKGResult) && len(pureDKGResult.PublicKeyShares) == dkgSize(keyperConfigIndex) && pureDKGResult.Threshold >= 1 && pureDKGResult.Threshold <= 1048576
+//@   requires handler != nil && wfResult(pureDKGResult) && len(pureDKGResult.PublicKeyShares) == dkgSize(keyperConfigIndex) && len(pureDKGResult.PublicKeyShares) <= 1048576 && pureDKGResult.Threshold >= 1 && pureDKGResult.Threshold <= 1048576
 //@   assigns mapof(map[string][]*epochkg.EpochSecretKeyShare), mapof(map[string]*shcrypto.EpochSecretKey)
 //@   ensures ret1 == nil ==> wfKG(ret0)
 //@   invariant wfKG(epochKG) && len(epochKG.PublicKeyShares) == len(pureDKGResult.PublicKeyShares)
